@@ -169,7 +169,9 @@ def tlc_trace(ctx, module, trace, timeout=1800):
     m = re.search(r'<<"REJECT", (\d+), "(.*)">>', out)
     if m:
         rec = json.loads(json.loads('"' + m.group(2) + '"'))
-        return False, {"line": int(m.group(1)), "record": rec, "events": nlines}
+        inv = re.findall(r'<<"INVARIANT", "([A-Za-z0-9_]+)", (\d+), (\d+)>>', out)
+        failed = sorted({name for name, i, run in inv if int(i) == rec.get("i") and int(run) == rec.get("run")})
+        return False, {"line": int(m.group(1)), "record": rec, "events": nlines, "invariants": failed}
     # an evaluation error inside an action (e.g. a field of an unexpected shape) is a rejection too,
     # at the depth reached; anything else is a tool failure
     m = re.search(r"The depth of the complete state graph search is (\d+)", out)
@@ -390,7 +392,11 @@ def kv_violation(ctx, trace, info):
                 continue
             events.append(ev)
     steps = events_to_steps(events)
-    what = f"KvTrace rejects {rec.get('e')} -> {json.dumps(rec.get('r', rec.get('obs')))[:300]} (run {run}, step {rec.get('i')})"
+    if rec.get("e") == "acct":
+        shown = "page accounting violates " + ", ".join(info.get("invariants") or ["an invariant of PagerInv.tla"])
+    else:
+        shown = f"{rec.get('e')} -> {json.dumps(rec.get('r', rec.get('obs')))[:300]}"
+    what = f"KvTrace rejects {shown} (run {run}, step {rec.get('i')})"
     sig = "kv:" + hashlib.sha256(json.dumps([cfg, steps], sort_keys=True).encode()).hexdigest()[:16]
     payload = {"property": ctx.prop, "kind": "kv-script", "cfg": cfg, "steps": steps, "rejected": rec, "what": what, "signature": sig}
     path = save_replay(ctx.prop, payload)
@@ -503,6 +509,61 @@ def replay_sched(ctx, payload):
     sh([bin_path("sched"), "--scenario", payload["scenario"], "--variants", str(payload["variant"] + 1), "--seed", str(payload["seed"]), "--out", trace],
        timeout=1800)
     ok, info = tlc_trace(ctx, "KvTrace", trace)
+    return not ok
+
+
+def tlc_trace_generic(ctx, module, trace, timeout=3600):
+    """Trace validation with a trace module other than KvTrace (same acceptance protocol)"""
+    metadir = os.path.join(ctx.work, "meta-trace-" + module)
+    env = {"TRACE": os.path.abspath(trace), "JAVA_TOOL_OPTIONS": "-Xss1g -Dtlc2.tool.queue.IStateQueue=StateDeque"}
+    cmd = ["timeout", str(timeout)] + tlc_cmd(module, module + ".cfg", 1, metadir)
+    p = sh(cmd, cwd=SPEC, timeout=timeout + 30, env=env, check=False)
+    out = p.stdout + p.stderr
+    s = parse_tlc_summary(out)
+    nlines = sum(1 for _ in open(trace))
+    if s.get("ok") and s.get("depth", 0) - 1 == nlines:
+        log(f"TLC {module}: accepted {nlines} events in {p.wall:.1f}s")
+        return True, {"events": nlines}
+    m = re.search(r'<<"REJECT", (\d+), "(.*)">>', out)
+    if m:
+        return False, {"line": int(m.group(1)), "record": json.loads(json.loads('"' + m.group(2) + '"')), "events": nlines}
+    tail = "\n".join(l for l in out.splitlines() if not l.startswith(("Semantic", "Parsing", "Linting")))[-3000:]
+    raise ToolError(f"trace validation failed to run on {trace}:\n{tail}")
+
+
+def run_buddy(ctx, mode, cap, steps=0, tag=None):
+    tag = tag or f"{mode}{cap}"
+    trace = os.path.join(ctx.work, f"buddy-{tag}.ndjson")
+    cmd = [bin_path("buddy"), "--mode", mode, "--cap", str(cap), "--seed", str(ctx.seed), "--steps", str(steps), "--out", trace]
+    p = sh(cmd, timeout=1800)
+    stats = json.loads(p.stdout.strip().splitlines()[-1])
+    log(f"buddy {tag}: {stats['ops']} operations, {stats['states']} states, {stats['panics']} panics")
+    ok, info = tlc_trace_generic(ctx, "BuddyTrace", trace)
+    ctx.cov["evaluations"] += stats["ops"]
+    ctx.cov["distinct_nontrivial"] += stats["ops"] if mode == "tour" else 0
+    ctx.notes[f"buddy_{tag}"] = stats
+    if ok:
+        ctx.cov["traces_validated_against_impl"] += 1
+        lines = open(trace).read().splitlines()
+        ctx.add_samples([json.loads(lines[len(lines) // 2])])
+        return stats
+    # the replay is the prefix of the trace up to the rejected record (from the last "state" record)
+    lines = open(trace).read().splitlines()[: info["line"]]
+    start = max(i for i, l in enumerate(lines) if json.loads(l)["e"] == "state")
+    events = [json.loads(l) for l in lines[start:]]
+    rec = info["record"]
+    what = f"buddy allocator (capacity {cap}): BuddyTrace rejects {json.dumps({k: v for k, v in rec.items() if k != 'blocks'})} after state {json.dumps(events[0])[:300]}"
+    sig = "buddy:" + hashlib.sha256(json.dumps(events, sort_keys=True).encode()).hexdigest()[:16]
+    payload = {"property": ctx.prop, "kind": "buddy", "cap": cap, "events": events, "what": what, "signature": sig}
+    raise Violation(ctx.prop, save_replay(ctx.prop, payload), what, sig)
+
+
+def replay_buddy(ctx, payload):
+    script = os.path.join(ctx.work, "buddy-replay.json")
+    json.dump(payload, open(script, "w"))
+    trace = os.path.join(ctx.work, "buddy-replay.ndjson")
+    sh([bin_path("buddy"), "--mode", "replay", "--cap", str(payload["cap"]), "--script", script, "--out", trace], timeout=600)
+    ok, _ = tlc_trace_generic(ctx, "BuddyTrace", trace)
     return not ok
 
 
@@ -682,6 +743,7 @@ def check_C05(ctx):
     pager_design(ctx)
     run_kv_walk(ctx, "pages", tiered(ctx, 16, 160), 600, page_sizes="512,1024", caches="0,1048576", tag="pages")
     run_kv_walk(ctx, "savepoint", tiered(ctx, 30, 300), tiered(ctx, 400, 1200), page_sizes="512,4096")
+    run_kv_walk(ctx, "spabort", tiered(ctx, 30, 300), tiered(ctx, 500, 1200), page_sizes="512,1024", caches="1048576,0")
     k = ctx.notes.get("event_kinds", {})
     ctx.cov["distinct_nontrivial"] += k.get("abort", 0) + k.get("acct", 0)
     if k.get("abort", 0) < 50:
@@ -736,8 +798,29 @@ def check_C07(ctx):
                      "savepoints of the recovered commit point")
 
 
+def check_C14(ctx):
+    build()
+    tlc_check(ctx, "Buddy", tiered(ctx, "MC_Buddy.cfg", "MC_Buddy_large.cfg"), workers=6, timeout=tiered(ctx, 900, 7200))
+    run_buddy(ctx, "tour", 8)
+    for cap, steps in tiered(ctx, [(64, 3000), (24, 2000)], [(64, 20000), (24, 10000), (256, 6000), (100, 6000), (16, 20000)]):
+        run_buddy(ctx, "walk", cap, steps)
+    # the region tracker, observed in whole-database histories with many small regions
+    run_kv_walk(ctx, "pages", tiered(ctx, 4, 40), 800, page_sizes="512", caches="1048576", tag="pages-regions", extra=["--region-size", "65536"], nkeys=200)
+    ctx.assumptions += ["the allocator is driven through a thin public wrapper (redb::verif::BuddyHandle) compiled under cfg(redb_verif)",
+                        "resize to a smaller length is only exercised when the cut tail is free (the implementation asserts that precondition)"]
+    return dict(level="model_checking", exhaustive=True,
+                rule="design: Buddy.tla over all (length, free set) states of a capacity-8 (thorough: 12) region, all operations; invariants: "
+                     "the canonical free structure covers exactly the free pages with disjoint, fully merged blocks, and a request can be "
+                     "refused iff nothing of that order exists. code: EVERY (state, operation) pair of the capacity-8 model is executed on the "
+                     "real allocator (state rebuilt by three different routes) and TLC validates result and the allocator's own free-block "
+                     "list against the specification (alloc/alloc_lowest/free/record_alloc incl. rejected ones/resize/serialize round trip); "
+                     "random walks on capacities 16-256 with non-power-of-two lengths; region tracker never reports a region full for an order "
+                     "its allocator can serve (RegionTrackerOk on accounting records of multi-region histories)")
+
+
 PROPS = {
     "C01": check_C01,
+    "C14": check_C14,
     "C02": check_C02,
     "C03": check_C03,
     "C05": check_C05,
@@ -780,6 +863,8 @@ def main(argv):
                 still = replay_crash_case(ctx, replay)
             elif payload.get("kind") == "sched":
                 still = replay_sched(ctx, payload)
+            elif payload.get("kind") == "buddy":
+                still = replay_buddy(ctx, payload)
             else:
                 still = replay_kv_script(ctx, payload)
             if still:
